@@ -1,13 +1,18 @@
 SPECIFICATION TSpec
 CONSTANTS Scenarios = {}
-  LenProfiles = {}
+  DataProfiles = {}
   MaxN = 99
   Forms = {"seq"}
-  StopKinds = {"close", "abandon"}
+  StopKinds = {"close", "abandon", "keep"}
   Reruns = {TRUE}
   RerunScenarios = {}
-  RerunLens = {}
+  RerunData = {}
   RerunForms = {"seq"}
+  Holds = {TRUE}
+  HoldScenarios = {}
+  HoldData = {}
+  HoldForms = {"seq"}
+  HoldRc = {FALSE, TRUE}
   KeepHistory = FALSE
   Design = "allowed"
 INVARIANT NoTruncated
